@@ -46,7 +46,7 @@ type solver struct {
 	// stats
 	Queries, Sat, Unsat, Unknown int
 	CacheHits                    int
-	AltUsed                      int
+	AltUsed, BVUsed              int
 	alt                          *solver
 	Time                         time.Duration
 }
@@ -406,11 +406,33 @@ func (s *solver) checkSliced(pc []pcEntry, extra []*Term) (checkResult, Model, m
 	}
 	script := qb.sb.String()
 	tq := time.Now()
-	res, model := s.runScript(script, vars)
+	var as []*Term
+	for i, p := range pc {
+		if used[i] {
+			as = append(as, p.c)
+		}
+	}
+	as = append(as, extra...)
+	bs, bvars, bvOK, slicing := bvScript2(as)
+	res, model := resUnknown, Model(nil)
+	triedBV := false
+	if bvOK && slicing >= 4 {
+		// bit-slicing arithmetic over powers of two: the bit-vector encoding first
+		res, model = runBV(bs, bvars, s.timeout)
+		s.BVUsed++
+		triedBV = true
+	}
+	if res == resUnknown {
+		res, model = s.runScript(script, vars)
+	}
 	if res == resUnknown && s.alt != nil {
 		// portfolio: the other solver often decides what the first one cannot
 		res, model = s.alt.runScript(script, vars)
 		s.AltUsed++
+	}
+	if res == resUnknown && bvOK && !triedBV {
+		res, model = runBV(bs, bvars, s.timeout*4)
+		s.BVUsed++
 	}
 	if res != resUnknown {
 		queryCache.Store(key, cacheEntry{res, model})
